@@ -790,3 +790,178 @@ async def check_block(case, rec):
     rec.label(f"alphabet={case['alphabet']}")
     for kind in sorted(first, key=lambda k: (k in known, k)):
         raise first[kind]
+
+
+# ---- sub-check 3: get_source_location overlapping an in-flight transfer ------------------------------------
+#
+# DefaultDataManager.transfer_data registers the destination *before* the copy: register_path(parent),
+# DataLocation(dst, PRIMARY, available=False), path_mapper.put(dst), register_relation(src, dst) when the
+# copy is read-only; after the copy it re-types a read-only destination (SYMBOLIC_LINK if the connector
+# made a link, which it can only do towards a primary copy on the same location), relates it to the
+# wrapped inner path and sets `available`. In between (the copy is an external wait) any other task may
+# look the path up, register, relate or invalidate (FileToken.is_available invalidates a PRIMARY
+# location whose file does not exist - yet). The harness replays exactly these registry steps around a
+# drawn window; the copy itself is not performed (C22).
+
+JOBROOT = "/j"  # destination directories are fresh per transfer (get_output_path): a root no other op uses
+mid_op_s = op_s.filter(lambda op: op[0] != "src")  # a synchronous lookup could block the driver itself
+window_case = st.fixed_dictionaries(
+    {
+        "cfg": st.integers(0, len(CONFIGS) - 1),
+        "pre": st.lists(op_s, max_size=4),
+        "src": st.tuples(loc_i, path_s).map(list),
+        "dst": st.tuples(loc_i, st.lists(st.sampled_from([0, 0, 1]), min_size=1, max_size=2)).map(list),
+        "same_loc": st.sampled_from([True, True, False]),  # destination on the source's location (link possible)
+        "writable": st.sampled_from([False, False, True]),
+        "link": st.booleans(),
+        "invalidate": st.sampled_from([False, False, True]),
+        "lookups": st.lists(st.tuples(st.integers(0, 4), st.integers(0, 1), st.integers(0, 3)).map(list), min_size=1, max_size=4),
+        "mid": st.lists(mid_op_s, max_size=4),
+    }
+)
+
+
+@prop.given("transfer-window", window_case, quick=3000, thorough=100000, max_shards=4)
+async def check_window(case, rec):
+    import asyncio
+
+    from streamflow.core.data import DataLocation, DataType
+    from vf.engine.detloop import settle
+    from vf.engine.harness import make_context
+
+    cfg = CONFIGS[case["cfg"] % len(CONFIGS)]
+    ctx = make_context()
+    try:
+        it = Interp(cfg, ctx.data_manager)
+        dm, m = it.dm, it.model
+        src_lk = it.lockey(case["src"][0])
+        dst_lk = src_lk if case["same_loc"] else it.lockey(case["dst"][0])
+        src_path = mkpath(case["src"][1])
+        dst_dir = JOBROOT + "/" + "/".join(COMPS[c % 2] for c in case["dst"][1])
+        dst_path = dst_dir + "/f"
+        it.universe = UNIVERSE + sorted({JOBROOT, dst_path, *(p for p in ancestors(dst_path) if p != "/")})
+        deps = sorted({LOCDEFS[k]["dep"] for k in it.all_locs}) + ["elsewhere"]
+        it.check_all()
+        for op in case["pre"]:
+            it.step(op)
+            it.check_all()
+            if op[0] == "src":
+                await it.check_source(mkpath(op[1]), deps[op[2] % len(deps)])
+        # the source of the transfer is a registered primary copy
+        it.do_register(src_lk, src_path, "PRIMARY", 1)
+        it.check_all()
+        if m.cur[(src_lk, src_path)].types != {"PRIMARY"} or m.cur[(src_lk, src_path)].state != "V":
+            rec.label("source-not-primary")  # registered earlier as a link: nothing to transfer from
+            return
+        # --- transfer_data, before the copy
+        src_obj = dm.path_mapper.get(path=src_path)[0]
+        it.do_register(dst_lk, dst_dir, "PRIMARY", 0)
+        dst_obj = DataLocation(location=it.locs[dst_lk], path=dst_path, relpath=src_obj.relpath, data_type=DataType.PRIMARY)
+        it.log.append(f"transfer_data begins: put({dst_lk},{dst_path},PRIMARY,not available){'' if case['writable'] else ' + register_relation(src,dst)'}")
+        dm.path_mapper.put(path=dst_path, data_location=dst_obj)
+        dst_fact = m.register_one(dst_lk, dst_path, "PRIMARY")
+        if not case["writable"]:
+            dm.register_relation(src_obj, dst_obj)
+            m.relate(m.cur[(src_lk, src_path)], dst_fact)
+        it.check_all()
+
+        # --- the window: lookups start as tasks at drawn points between the other ops
+        lookups = []  # [task, path, dep, snapshot of the valid primaries at start, blocked?]
+        mid = case["mid"]
+
+        def primaries(path):
+            lower, upper = m.bounds(m.index(), path, None, None, "PRIMARY")
+            return lower, upper
+
+        async def start_lookups(pos):
+            for when, which, dep_i in case["lookups"]:
+                if when % (len(mid) + 1) == pos:
+                    path, dep = (dst_path, src_path)[which], deps[dep_i % len(deps)]
+                    snap = {(f.id, f.revived) for f in primaries(path)[0]}
+                    it.log.append(f"get_source_location({path},{dep}) starts")
+                    lookups.append([asyncio.create_task(dm.get_source_location(path, dep)), path, dep, snap, None])
+            await settle()
+            for lk in lookups:
+                if lk[4] is None:
+                    lk[4] = not lk[0].done()
+                    if lk[0].done():
+                        judge(lk, "in-window")
+
+        verdicts = []
+
+        def judge(lk, when):
+            task, path, dep, snap, _ = lk
+            r = task.result()
+            lower, upper = primaries(path)
+            q = f"get_source_location({path!r}, {dep!r}) [{when}] = {describe(r) if r is not None else None}; model at return time: valid primary copies {lower}, possible {upper}. {it.ctxmsg()}"
+            if r is None:
+                # None is wrong if some primary copy was valid from the call to the return
+                if any((f.id, f.revived) in snap for f in lower):
+                    raise Violation("C21:source:window:none-although-a-valid-primary-exists", q)
+                verdicts.append("none")
+                return
+            f = m.cur.get((LOC_BY_ID.get((r.deployment, r.name)), r.path))
+            if r.data_type.name != "PRIMARY" or f is None or f not in upper:
+                raise Violation("C21:source:window:not-a-valid-primary-copy", q)
+            verdicts.append("in-flight-destination" if r is dst_obj else "related-primary" if path == dst_path else "primary")
+
+        await start_lookups(0)
+        for i, op in enumerate(mid):
+            it.step(op)
+            it.check_all()
+            await start_lookups(i + 1)
+        if case["invalidate"]:
+            it.do_invalidate(dst_obj)  # e.g. FileToken.is_available: the file is not there yet
+            it.check_all()
+            await settle()
+
+        # --- transfer_data, after the copy
+        link = bool(case["link"]) and dst_lk == src_lk
+        if not case["writable"]:
+            new_type = "SYMBOLIC_LINK" if link else "PRIMARY"
+            dst_obj.data_type = DataType[new_type]
+            f = m.cur.get((dst_lk, dst_path))
+            if f is None:  # invalidated during the copy: the finished transfer states it again
+                f = m.register_one(dst_lk, dst_path, new_type)
+            else:
+                f.state, f.types = "V", {new_type}
+        it.log.append(f"transfer_data ends: {dst_lk}:{dst_path} is {dst_obj.data_type.name}, available")
+        # wrapped locations: relate to the inner path (existing location, or a new available one)
+        if dst_obj.data_type != DataType.INVALID:
+            cur_lk, p = dst_lk, dst_path
+            while (qpath := inner_of(cur_lk, p)) is not None:
+                cur_lk, p = LOCDEFS[cur_lk]["wraps"], qpath
+                d = LOCDEFS[cur_lk]
+                found = dm.path_mapper.get(path=p, deployment=d["dep"], name=d["name"])
+                inner_obj = found[0] if found else DataLocation(location=it.locs[cur_lk], path=p, relpath=dst_obj.relpath, data_type=dst_obj.data_type, available=True)
+                if inner_obj.data_type == DataType.INVALID:
+                    break  # a stale inner object: known-finding territory (root cause B), not this sub-check's
+                dm.register_relation(dst_obj, inner_obj)
+                inner_fact = m.cur.get((cur_lk, p)) or m.register_one(cur_lk, p, inner_obj.data_type.name)
+                m.relate(m.cur[(dst_lk, dst_path)], inner_fact)
+        dst_obj.available.set()
+        await settle()
+        blocked = 0
+        for lk in lookups:
+            if lk[4]:
+                blocked += 1
+                if not lk[0].done():
+                    raise Violation("C21:source:window:lookup-pending-after-every-candidate-settled", f"get_source_location({lk[1]!r},{lk[2]!r}) still pending. {it.ctxmsg()}")
+                judge(lk, "blocked-until-transfer-end")
+        it.check_all()
+        for path in (dst_path, src_path):
+            for dep in deps:
+                await it.check_source(path, dep)
+        changed = dst_obj.data_type != DataType.PRIMARY
+        rec.label("writable" if case["writable"] else "read-only", f"end:{dst_obj.data_type.name}")
+        rec.label("same-location" if dst_lk == src_lk else "other-location")
+        if case["invalidate"]:
+            rec.label("invalidated-in-window")
+        if "wraps" in LOCDEFS[dst_lk]:
+            rec.label("wrapped-destination")
+        rec.label("lookup-blocked" if blocked else "no-lookup-blocked")
+        for v in sorted(set(verdicts)):
+            rec.label(f"returned:{v}")
+        rec.nontrivial(bool(blocked) and changed)
+    finally:
+        await ctx.close()
